@@ -17,6 +17,56 @@ int  nni_atomic_get(nni_atomic_int *a) { return (SC_AINT(*a)); }
 void nni_atomic_inc(nni_atomic_int *a) { SC_AINT(*a) = (int) ((unsigned) SC_AINT(*a) + 1u); }
 int  nni_atomic_dec_nv(nni_atomic_int *a) { SC_AINT(*a) = (int) ((unsigned) SC_AINT(*a) - 1u); return (SC_AINT(*a)); }
 
+/* ---- id map: ASSUMED model of nni_id_get / nni_id_alloc32 / nni_id_remove (src/core/idhash.c is NOT in
+ * this translation unit).  It states the clauses of the contracts proved in
+ * modules/idhash that the callers rely on: idhash_alloc32 -- a refusal stores no id
+ * ("any failure: no id handed out": *idp keeps its value) and changes nothing; a success
+ * issues an id inside [id_min_val, id_max_val] of THIS map (the bounds are read from the real
+ * map object, i.e. from the static initialiser in the real file) and registers exactly
+ * (id -> val); idhash_remove -- NNG_ENOENT iff absent.  Which id inside the range is issued is
+ * arbitrary here (uniqueness among live ids / cyclic order: modules/idhash). ---- */
+/* lookup: answers with g_reg, the object the caller's contract describes as
+ * "registered under this id" (NULL: none) -- idhash_get: the result is a value
+ * stored under exactly this key, NULL iff there is none; that stored values are
+ * valid objects of the map's type is the callers' invariant */
+void *
+nni_id_get(nni_id_map *m, uint64_t id)
+{
+	g_idg_calls++;
+	g_idg_map = m;
+	g_idg_id  = id;
+	return (g_reg);
+}
+int
+nni_id_alloc32(nni_id_map *m, uint32_t *idp, void *val)
+{
+	g_ida_calls++;
+	g_ida_map = m;
+	g_ida_val = val;
+	__CPROVER_assert(val != NULL, "id map values must be non-NULL (idhash.h)");
+	__CPROVER_assert(m->id_min_val >= 1 && m->id_min_val <= m->id_max_val && m->id_max_val <= 0xffffffffu, "nni_id_alloc32: the map's range fits 32 bits (NNI_ASSERT of the real function)");
+	if (g_ida_fail) {
+		return (NNG_ENOMEM);
+	}
+	g_ida_issued = (uint32_t) (m->id_min_val + ((uint64_t) g_ida_raw % (m->id_max_val - m->id_min_val + 1)));
+	*idp         = g_ida_issued;
+	m->id_count++;
+	return (0);
+}
+int
+nni_id_remove(nni_id_map *m, uint64_t id)
+{
+	g_idr_calls++;
+	g_idr_map     = m;
+	g_idr_id      = id;
+	g_idr_at_free = g_free_calls;
+	if (!g_idr_found) {
+		return (NNG_ENOENT);
+	}
+	m->id_count--;
+	return (0);
+}
+
 /* ---- condition variables, reaper ---- */
 void nni_cv_init(nni_cv *cv, nni_mtx *m) { (void) cv; (void) m; }
 void nni_cv_fini(nni_cv *cv) { (void) cv; }
